@@ -1328,3 +1328,196 @@ def m_string_clone(I, st, args, dty, site):
     oid = next(I._oid)
     st.objs[oid] = ('String', sv if sv is not None else I.fresh_str(st, 'clone'))
     return [(st, ('obj', oid, 'std::string::String'))]
+
+
+# ---------------------------------------------------------------- Vec / HashSet (length-tracking)
+
+def obj_of(I, st, v):
+    v = deref(I, st, v)
+    if v is not None and v[0] == 'obj':
+        return v, st.objs.get(v[1])
+    return None, None
+
+
+@model('std::vec::Vec::<T>::new', 'std::vec::Vec::<T>::with_capacity', 'std::collections::HashSet::<T>::new')
+def m_vec_new(I, st, args, dty, site):
+    oid = next(I._oid)
+    ety = dty['args'][0] if dty and dty.get('args') else None
+    kind = 'Set' if 'HashSet' in site['callee'] else 'Vec'
+    if kind == 'Vec':
+        st.objs[oid] = ('Vec', D.const_vid(0), ety, None)
+    else:
+        st.objs[oid] = ('Set', D.const_vid(0), ety)
+    return [(st, ('obj', oid, dty['path'] if dty else 'std::vec::Vec'))]
+
+
+@model('std::vec::Vec::<T, A>::push')
+def m_vec_push(I, st, args, dty, site):
+    h, o = obj_of(I, st, args[0])
+    if o is None or o[0] != 'Vec':
+        return None
+    n = I.binop(st, 'Add', ('i', o[1], 'usize'), const_int(1, 'usize'), ty_of_name('usize'), None, None)
+    D.set_iv(st, n[1], 0, USIZE_MAX)
+    ev = args[1] if o[3] is None and D.get_iv(st, o[1]) == (0, 0) else (I.join_val(st, st, st, o[3], args[1]) if o[3] is not None else None)
+    st.objs[h[1]] = ('Vec', n[1], o[2], ev)
+    return [(st, UNIT)]
+
+
+@model('std::vec::Vec::<T, A>::len', 'std::collections::HashSet::<T, S, A>::len')
+def m_vec_len(I, st, args, dty, site):
+    h, o = obj_of(I, st, args[0])
+    if o is None:
+        return [(st, I.top(st, ty_of_name('usize'), 'len', lo=0, hi=USIZE_MAX))]
+    return [(st, ('i', o[1], 'usize'))]
+
+
+@model('<std::vec::Vec<T, A> as std::ops::Deref>::deref', '<std::vec::Vec<T, A> as std::ops::DerefMut>::deref_mut',
+       'std::vec::Vec::<T, A>::as_slice')
+def m_vec_deref(I, st, args, dty, site):
+    h, o = obj_of(I, st, args[0])
+    if o is None or o[0] != 'Vec':
+        return None
+    return [(st, ('slice', {'len': o[1], 'elems': None, 'elem_ty': o[2], 'ident': ('vec', h[1]), 'ev': o[3], 'vec': h[1]}))]
+
+
+def _slice_elem(I, st, sl):
+    if sl.get('ev') is not None:
+        return sl['ev']
+    if sl.get('elems'):
+        return I.join_many(st, list(sl['elems']))
+    return I.top(st, sl['elem_ty'], 'elem') if sl.get('elem_ty') else ('top', None)
+
+
+@model('core::slice::<impl [T]>::len')
+def m_slice_len(I, st, args, dty, site):
+    a = args[0]
+    if a[0] == 'slice':
+        return [(st, ('i', a[1]['len'], 'usize'))]
+    return None
+
+
+@model('core::slice::<impl [T]>::is_empty')
+def m_slice_is_empty(I, st, args, dty, site):
+    a = args[0]
+    if a[0] == 'slice':
+        return [(st, I.binop(st, 'Eq', ('i', a[1]['len'], 'usize'), const_int(0, 'usize'), {'k': 'bool'}, None, None))]
+    return None
+
+
+@model('core::slice::<impl [T]>::first', 'core::slice::<impl [T]>::last', 'core::slice::<impl [T]>::last_mut', 'core::slice::<impl [T]>::first_mut')
+def m_slice_first_last(I, st, args, dty, site):
+    a = args[0]
+    if a[0] != 'slice':
+        return None
+    lo, hi = D.get_iv(st, a[1]['len'])
+    outs = []
+    if hi >= 1:
+        s1 = st.clone()
+        if D.set_iv(s1, a[1]['len'], 1, hi):
+            e = _slice_elem(I, s1, a[1])
+            outs.append((s1, some(('r', I.alloc(s1, e)))))
+    if lo <= 0:
+        s2 = st.clone()
+        if D.set_iv(s2, a[1]['len'], 0, 0):
+            outs.append((s2, none()))
+    return outs
+
+
+@model('<std::vec::Vec<T, A> as std::ops::Index<I>>::index', 'core::slice::index::<impl std::ops::Index<I> for [T]>::index',
+       '<std::vec::Vec<T, A> as std::ops::IndexMut<I>>::index_mut')
+def m_vec_index(I, st, args, dty, site):
+    base = args[0]
+    if base[0] == 'slice':
+        lenv, elem = base[1]['len'], _slice_elem(I, st, base[1])
+    else:
+        h, o = obj_of(I, st, base)
+        if o is None or o[0] != 'Vec':
+            return None
+        lenv = o[1]
+        elem = o[3] if o[3] is not None else (I.top(st, o[2], 'elem') if o[2] else ('top', None))
+    idx = args[1]
+    ob = site_obl(I, site, 'STDPRE')
+    if _intarg(idx):
+        t, f = D.cmp_possible(st, 'Lt', idx[1], lenv)
+        I.record(ob, not f, st, f'index in {D.get_iv(st, idx[1])}, len in {D.get_iv(st, lenv)}' if f else None, cause='index out of bounds')
+        if not D.refine_cmp(st, 'Lt', idx[1], lenv):
+            return []
+        return [(st, ('r', I.alloc(st, elem)))]
+    # range index on a slice: start <= end <= len
+    if idx[0] == 's' and idx[1] in (RANGE, RANGE_INC, 'std::ops::RangeFrom', 'std::ops::RangeTo', 'std::ops::RangeFull'):
+        okp = True
+        if idx[1] == RANGE and _intarg(idx[2][0]) and _intarg(idx[2][1]):
+            t1, f1 = D.cmp_possible(st, 'Le', idx[2][0][1], idx[2][1][1])
+            t2, f2 = D.cmp_possible(st, 'Le', idx[2][1][1], lenv)
+            okp = not f1 and not f2
+            I.record(ob, okp, st, f'range {D.get_iv(st, idx[2][0][1])}..{D.get_iv(st, idx[2][1][1])} of len {D.get_iv(st, lenv)}' if not okp else None,
+                     cause='slice range out of bounds')
+            n = I.binop(st, 'Sub', ('i', idx[2][1][1], 'usize'), ('i', idx[2][0][1], 'usize'), ty_of_name('usize'), None, None)
+            if n[0] == 'i':
+                D.set_iv(st, n[1], 0, USIZE_MAX)
+                return [(st, ('slice', {'len': n[1], 'elems': None, 'elem_ty': base[1].get('elem_ty') if base[0] == 'slice' else None, 'ident': next(StrV._ids)}))]
+        else:
+            I.record(ob, False, st, 'range index of unknown shape', cause='slice range out of bounds')
+        return [(st, ('slice', I.fresh_slice(st, base[1].get('elem_ty') if base[0] == 'slice' else None)))]
+    I.record(ob, False, st, 'index of unknown shape', cause='index out of bounds')
+    return [(st, I.top(st, dty, 'idx') if dty else ('top', None))]
+
+
+@model('core::slice::<impl [T]>::split_at')
+def m_split_at(I, st, args, dty, site):
+    a, mid = args[0], args[1]
+    if a[0] != 'slice' or not _intarg(mid):
+        return None
+    ob = site_obl(I, site, 'STDPRE')
+    t, f = D.cmp_possible(st, 'Le', mid[1], a[1]['len'])
+    I.record(ob, not f, st, f'mid in {D.get_iv(st, mid[1])}, len in {D.get_iv(st, a[1]["len"])}' if f else None, cause='split_at out of bounds')
+    if not D.refine_cmp(st, 'Le', mid[1], a[1]['len']):
+        return []
+    rest = I.binop(st, 'Sub', ('i', a[1]['len'], 'usize'), ('i', mid[1], 'usize'), ty_of_name('usize'), None, None)
+    if rest[0] == 'i':
+        D.set_iv(st, rest[1], 0, USIZE_MAX)
+    left = {'len': mid[1], 'elems': None, 'elem_ty': a[1].get('elem_ty'), 'ident': next(StrV._ids)}
+    right = {'len': rest[1], 'elems': None, 'elem_ty': a[1].get('elem_ty'), 'ident': next(StrV._ids)}
+    return [(st, ('t', (('slice', left), ('slice', right))))]
+
+
+@model('std::collections::HashSet::<T, S, A>::contains')
+def m_set_contains(I, st, args, dty, site):
+    s1, s2 = st.clone(), st.clone()
+    h, o = obj_of(I, st, args[0])
+    outs = [(s2, const_int(0, 'bool'))]
+    if o is None or D.get_iv(st, o[1])[1] >= 1:
+        outs.append((s1, const_int(1, 'bool')))
+    return outs
+
+
+@model('std::collections::HashSet::<T, S, A>::insert')
+def m_set_insert(I, st, args, dty, site):
+    h, o = obj_of(I, st, args[0])
+    if o is None:
+        return None
+    lo, hi = D.get_iv(st, o[1])
+    v = D.fresh_vid(st, max(lo, 1), min(hi + 1, USIZE_MAX))
+    st.objs[h[1]] = ('Set', v, o[2])
+    return [(st, I.top(st, {'k': 'bool'}, 'inserted'))]
+
+
+@model('<std::collections::HashSet<T, S, A> as std::iter::Extend<T>>::extend')
+def m_set_extend(I, st, args, dty, site):
+    h, o = obj_of(I, st, args[0])
+    if o is None:
+        return None
+    lo, hi = D.get_iv(st, o[1])
+    v = D.fresh_vid(st, lo, USIZE_MAX)
+    st.objs[h[1]] = ('Set', v, o[2])
+    return [(st, UNIT)]
+
+
+@model('<std::collections::HashSet<T, S, A> as std::clone::Clone>::clone', '<std::vec::Vec<T, A> as std::clone::Clone>::clone')
+def m_coll_clone(I, st, args, dty, site):
+    h, o = obj_of(I, st, args[0])
+    if o is None:
+        return None
+    oid = next(I._oid)
+    st.objs[oid] = o
+    return [(st, ('obj', oid, h[2]))]
